@@ -13,7 +13,11 @@ CLAIM = dict(
          'nothing is cut), returns d*q cores of mode size 2 with boundary ranks 1 whose entry at the binary expansion equals '
          'the original entry (C17_tt_to_qtt_denote, C17_core_tt_to_qtt_spec), keeps the TT-ranks on the bonds between modes '
          'and has every bond inside a mode equal to an inner size of a factorisation, hence <= the cap '
-         '(C17_tt_to_qtt_ranks); a non-power-of-two mode size is rejected with ValueError before any factorisation '
+         '(C17_tt_to_qtt_ranks); at the reals, with e = 0, the MODEL of matrix_svd (Model/Svd.v) is such an exact '
+         'factorisation on every non-empty matrix whose smaller dimension is below the cap, for every eigh / argsort routine '
+         'meeting their contracts, so the conversion theorem holds with matrix_svd itself on those calls '
+         '(C17_matrix_svd_exact_e0, C17_tt_to_qtt_denote_matrix_svd; uses property C02\'s step contract); '
+         'a non-power-of-two mode size is rejected with ValueError before any factorisation '
          '(C17_core_tt_to_qtt_rejects). PARTIAL: with real truncation (e > 0 cutting something, or a binding cap) the '
          '"within the requested accuracy" clause is not proved; it is checked numerically by the search (dense reference). '
          'Mode size 1 (= 2^0) is outside the model (teneva returns a malformed core or raises depending on parity).',
